@@ -1,4 +1,538 @@
 import LenaModel.Model.C08
-/-! # C08 — property theorems -/
+import LenaModel.Lemmas.C08
+/-! # C08 — property theorems (context addressing, formatting and update elements)
+
+Vocabulary: `getPath v p` is the item a key path `p` names (`none`: absent, or a scalar on the way);
+`WFPath p`: every key of the path is non-empty and has no dot (the property's key paths);
+`EntriesWF d`: no key occurs twice in a dictionary, at any depth (every Python `dict`). -/
 namespace Lena.C08
+
+/-! ## 1. The three notations address the same item -/
+
+/-- the dictionary notation of a key path: `{k1: {k2: … {kn: v}}}` (`{}` for the empty path) -/
+def pathEntries : List String → Val → Entries
+  | [], _ => []
+  | k :: r, v => [(k, nestPath r v)]
+
+theorem keysOfVal_nestPath : ∀ (p : List String) (v : Val),
+    keysOfVal (nestPath p v) =
+      match keysOfVal v with
+      | .ok ks => .ok (p.map Leaf.str ++ ks)
+      | .error e => .error e
+  | [], v => by cases h : keysOfVal v <;> simp [nestPath, h]
+  | k :: r, v => by
+    rw [nestPath, keysOfVal, keysOfEntries, keysOfVal_nestPath r v]
+    cases keysOfVal v <;> simp
+
+theorem keysOfEntries_pathEntries (p : List String) (v : Val) :
+    keysOfEntries (pathEntries p v) =
+      match p with
+      | [] => .ok []
+      | _ :: _ =>
+        match keysOfVal v with
+        | .ok ks => .ok (p.map Leaf.str ++ ks)
+        | .error e => .error e := by
+  cases p with
+  | nil => simp [pathEntries, keysOfEntries]
+  | cons k r =>
+    simp only [pathEntries]
+    rw [keysOfEntries, keysOfVal_nestPath]
+    cases keysOfVal v <;> simp
+
+/-- **notations_agree** — "the three ways of naming a nested key (dotted string, list of keys,
+one-key-per-level dictionary) address the same item": for every key path all notations normalise to
+the same list of keys — the dotted string, the list, the dictionary that ends in `{}`, and (two keys
+or more) the dictionary whose innermost value is the last key, as `str_to_dict("a.b.c")` builds it. -/
+theorem notations_agree (p : List String) (h : WFPath p) :
+    normKeys (.str (joinDots p)) = .ok (p.map Leaf.str) ∧
+    normKeys (.list (p.map (fun k => Val.leaf (.str k)))) = .ok (p.map Leaf.str) ∧
+    normKeys (.dict (pathEntries p (.dict []))) = .ok (p.map Leaf.str) ∧
+    (∀ q last, p = q ++ [last] → q ≠ [] →
+      normKeys (.dict (pathEntries q (.leaf (.str last)))) = .ok (p.map Leaf.str)) := by
+  refine ⟨?_, ?_, ?_, ?_⟩
+  · simp only [normKeys]
+    by_cases hne : p = []
+    · subst hne
+      simp [joinDots_nil, splitDots, splitDotsC]
+    · rw [splitDots_joinDots p hne (fun k hk => (h k hk).2)]
+      congr 2
+      exact List.filter_eq_self.2 (fun k hk => by simpa using (h k hk).1)
+  · simp only [normKeys]
+    have h1 : (p.map (fun k => Val.leaf (.str k))).all isStrVal = true := by
+      simp [isStrVal]
+    have h2 : ∀ p : List String, (p.map (fun k => Val.leaf (.str k))).filterMap leafOfVal = p.map Leaf.str := by
+      intro p
+      induction p with
+      | nil => rfl
+      | cons k r ih =>
+        simp only [List.map_cons, List.filterMap_cons, leafOfVal]
+        rw [ih]
+    simp [h1, h2 p]
+  · simp only [normKeys]
+    rw [keysOfEntries_pathEntries]
+    cases p <;> simp [keysOfVal, keysOfEntries]
+  · intro q last hp hq
+    simp only [normKeys]
+    rw [keysOfEntries_pathEntries]
+    have hl : last ≠ "" := (h last (by simp [hp])).1
+    cases q with
+    | nil => exact absurd rfl hq
+    | cons k r => simp [keysOfVal, Leaf.truthy, hl, hp]
+
+example : WFPath ["output", "latex", "name"] := by
+  intro k hk; simp at hk; rcases hk with rfl | rfl | rfl <;> decide
+
+/-- `get_recursively` in any notation returns the item the path names, the default when it is absent,
+`LenaKeyError` when it is absent and no default was given — for every dictionary, every path, also one
+that passes through a scalar -/
+theorem get_eq_path (es : Entries) (k : KeyArg) (p : List String) (dflt : Option Val)
+    (hk : normKeys k = .ok (p.map Leaf.str)) :
+    getRec (.dict es) k dflt =
+      match getPath (.dict es) p with
+      | some v => .ok v
+      | none =>
+        match dflt with
+        | some dv => .ok dv
+        | none => .error .lenaKeyError := by
+  simp only [getRec, hk, walk_eq_getPath]
+  cases getPath (.dict es) p <;> rfl
+
+/-- something that is not a dictionary is rejected with `LenaTypeError`, whatever the keys -/
+theorem get_non_dict (a : Leaf) (k : KeyArg) (dflt : Option Val) :
+    getRec (.leaf a) k dflt = .error .lenaTypeError := rfl
+
+/-- keys of a wrong type, or a list with a key that is not a string: `LenaTypeError`; a dictionary with
+two keys at its first level: `LenaValueError` -/
+theorem get_bad_keys (es : Entries) (dflt : Option Val) :
+    getRec (.dict es) .other dflt = .error .lenaTypeError ∧
+    (∀ ks, ks.all isStrVal = false → getRec (.dict es) (.list ks) dflt = .error .lenaTypeError) ∧
+    (∀ e1 e2 r, getRec (.dict es) (.dict (e1 :: e2 :: r)) dflt = .error .lenaValueError) := by
+  refine ⟨rfl, ?_, ?_⟩
+  · intro ks h; simp [getRec, normKeys, h]
+  · intro e1 e2 r; simp [getRec, normKeys, keysOfEntries]
+
+/-- **get_of_str_to_dict** — "`get_recursively(str_to_dict(s, v), s)` is `v`": for every non-empty key
+path and every value, in every notation of the path -/
+theorem get_of_str_to_dict (p : List String) (hne : p ≠ []) (h : WFPath p) (v : Val) (k : KeyArg)
+    (hk : normKeys k = .ok (p.map Leaf.str)) (dflt : Option Val) :
+    ∃ es, strToDict (joinDots p) (some v) = .ok (.dict es) ∧ getRec (.dict es) k dflt = .ok v := by
+  obtain ⟨k0, r, rfl⟩ : ∃ k0 r, p = k0 :: r := by
+    cases p with
+    | nil => exact absurd rfl hne
+    | cons a b => exact ⟨a, b, rfl⟩
+  refine ⟨[(k0, nestPath r v)], ?_, ?_⟩
+  · unfold strToDict
+    rw [if_neg (joinDots_ne_empty _ hne h)]
+    simp only
+    rw [splitDots_joinDots _ hne (fun k hk => (h k hk).2), nestList_eq _ _ hne]
+    rfl
+  · rw [get_eq_path _ k _ dflt hk]
+    have := getPath_nestPath (k0 :: r) v
+    rw [nestPath] at this
+    rw [this]
+
+example : ∃ es, strToDict (joinDots ["a", "b"]) (some (.leaf (.int 5))) = .ok (.dict es) ∧
+    getRec (.dict es) (.str "a.b") none = .ok (.leaf (.int 5)) :=
+  ⟨[("a", .dict [("b", .leaf (.int 5))])], by decide, by decide⟩
+
+/-- `str_to_dict` with the empty string and a value, or without a value and fewer than two parts, is a
+`LenaValueError`; the empty string alone is the empty dictionary -/
+theorem str_to_dict_errors (v : Val) (k : String) (hk : '.' ∉ k.toList) (hne : k ≠ "") :
+    strToDict "" (some v) = .error .lenaValueError ∧
+    strToDict "" none = .ok (.dict []) ∧
+    strToDict k none = .error .lenaValueError := by
+  refine ⟨rfl, rfl, ?_⟩
+  unfold strToDict
+  rw [if_neg hne]
+  have : splitDots k = [k] := by
+    have := splitDots_joinDots [k] (by simp) (by simpa using hk)
+    simpa [joinDots, joinDotsC, String.ofList_toList] using this
+  simp [this, nestList]
+
+/-! ## 2. `contains` agrees with `get_recursively` -/
+
+theorem containsGo_iff : ∀ (q : List String) (v : Val) (last : String),
+    containsGo v (q ++ [last]) = true ↔
+      (getPath v (q ++ [last])).isSome = true ∨ ∃ a, getPath v q = some (.leaf a) ∧ pyStr a = last
+  | [], .dict l, last => by
+    simp [containsGo, getPath_singleton]
+  | [], .leaf a, last => by
+    simp [containsGo]
+  | k :: r, .leaf a, last => by
+    cases r <;> simp [containsGo]
+  | k :: r, .dict l, last => by
+    cases h : lookup l k with
+    | none => cases r <;> simp [containsGo, h, getPath_dict_cons]
+    | some w =>
+      have := containsGo_iff r w last
+      cases r <;> simpa [containsGo, h, getPath_dict_cons] using this
+
+/-- **contains_iff** — "`contains` agrees with `get_recursively`": for every dictionary and every key
+path `q ++ [last]`, `contains` is true exactly when the path names an item, or when `q` names a scalar
+whose string representation is `last` (the documented `contains(d, "fit.coordinate.x")`); a path that
+passes through a scalar earlier gives `False`, never an exception (`contains` is total) -/
+theorem contains_iff (d : Entries) (q : List String) (last : String) (h : WFPath (q ++ [last])) :
+    contains d (joinDots (q ++ [last])) = true ↔
+      (getPath (.dict d) (q ++ [last])).isSome = true ∨
+      ∃ a, getPath (.dict d) q = some (.leaf a) ∧ pyStr a = last := by
+  unfold contains
+  rw [if_neg (joinDots_ne_empty _ (by simp) h), splitDots_joinDots _ (by simp) (fun k hk => (h k hk).2)]
+  exact containsGo_iff q (.dict d) last
+
+/-- the empty string names the context itself, for `contains` as for `get_recursively` -/
+theorem contains_empty (d : Entries) : contains d "" = true ∧ getRec (.dict d) (.str "") none = .ok (.dict d) := by
+  constructor
+  · rfl
+  · have := get_eq_path d (.str "") [] none (by simp [normKeys, splitDots, splitDotsC])
+    simpa using this
+
+example : contains [("fit", .dict [("coordinate", .leaf (.str "x"))])] "fit.coordinate.x" = true := by decide
+example : contains [("a", .leaf (.int 5))] "a.b.c" = false := by decide
+
+/-! ## 3. `UpdateContext` changes exactly the addressed item -/
+
+/-- **update_sets, update_frame** — "UpdateContext changes exactly the addressed item – to the given
+value, the rendered template or a copy of another context item – and leaves the data and every other
+item untouched": whenever the update value `u` could be computed, the result is a `(data, context)`
+pair with the same data; the item at the sub-context path is `u` (with `recursively` and two
+dictionaries: `u` merged into the previous item, see `merge_keeps_siblings`); every item whose path is
+not prefix-comparable with the sub-context path is what it was.  Also for a value without context. -/
+theorem update_exact {δ : Type} (uc : UC) (v : Item δ) (u : Val) (hne : uc.subctx ≠ [])
+    (h : ucCompute uc v.context = .ok (.update u)) :
+    ∃ c', ucCall uc v = .ok (.pair v.data c') ∧
+      getPath (.dict c') uc.subctx =
+        some (if uc.recursively then updItem (getPath (.dict v.context) uc.subctx) u else u) ∧
+      ∀ q, ¬ uc.subctx <+: q → ¬ q <+: uc.subctx → getPath (.dict c') q = getPath (.dict v.context) q := by
+  refine ⟨ucSet uc.recursively v.context uc.subctx u, by simp [ucCall, h], ?_, ?_⟩
+  · exact getPath_ucSet_same _ _ _ _ hne
+  · intro q h1 h2
+    exact getPath_ucSet_frame _ _ _ _ _ hne h1 h2
+
+/-- a scalar update value overwrites whatever was there; a dictionary replaces an absent item; without
+`recursively` the previous item is always replaced -/
+theorem update_value_cases (cur : Option Val) (a : Leaf) (o : Entries) :
+    updItem cur (.leaf a) = .leaf a ∧ updItem none (.dict o) = .dict o := by
+  simp [updItem]
+
+/-- with `recursively`, a dictionary merged into a dictionary keeps the siblings that are not
+overwritten and overwrites the others -/
+theorem merge_keeps_siblings (dk o : Entries) (ho : EntriesWF o) (k : String) :
+    (lookup o k = none → getPath (updItem (some (.dict dk)) (.dict o)) [k] = lookup dk k) ∧
+    (∀ a, lookup o k = some (.leaf a) → getPath (updItem (some (.dict dk)) (.dict o)) [k] = some (.leaf a)) := by
+  simp only [updItem, getPath_singleton]
+  constructor
+  · intro h; rw [lookup_updRec o ho, h]
+  · intro a h; rw [lookup_updRec o ho, h]; simp [updItem]
+
+/-- the data of a value are never touched, whatever the outcome -/
+theorem update_keeps_data {δ : Type} (uc : UC) (v v' : Item δ) (h : ucCall uc v = .ok v') : v'.data = v.data := by
+  unfold ucCall at h
+  split at h
+  · simp at h
+  · simp at h; subst h; rfl
+  · simp at h; subst h; rfl
+
+/-! ### the missing-key matrix -/
+
+/-- **missing_key_matrix (context value)** — "a missing key is handled as configured (default, skip or
+LenaKeyError)": for `UpdateContext(sub, "{{key.path}}", value=True, …)` the update value is the item
+the path names; when it is absent it is the default if one was given, otherwise the value is returned
+unchanged (`skip_on_missing`) or `LenaKeyError` is raised -/
+theorem missing_key_matrix_value (uc : UC) (p : List String) (hp : WFPath p)
+    (hu : uc.upd = .ctxValue (joinDots p)) (ctx : Entries) :
+    ucCompute uc ctx =
+      match getPath (.dict ctx) p with
+      | some v => .ok (.update v)
+      | none =>
+        match uc.default with
+        | some dv => .ok (.update dv)
+        | none => if uc.skipOnMissing then .ok .skip else .error .lenaKeyError := by
+  unfold ucCompute
+  rw [hu]
+  simp only
+  cases hd : uc.default with
+  | none =>
+    simp only
+    rw [get_eq_path ctx _ p none (notations_agree p hp).1]
+    cases getPath (.dict ctx) p <;> simp
+  | some dv =>
+    simp only
+    rw [get_eq_path ctx _ p (some dv) (notations_agree p hp).1]
+    cases getPath (.dict ctx) p <;> simp
+
+/-- at the level of the call: the key is missing and … -/
+theorem missing_key_outcomes {δ : Type} (uc : UC) (p : List String) (hp : WFPath p)
+    (hu : uc.upd = .ctxValue (joinDots p)) (v : Item δ) (habs : getPath (.dict v.context) p = none) :
+    (∀ dv, uc.default = some dv →
+      ucCall uc v = .ok (.pair v.data (ucSet uc.recursively v.context uc.subctx dv))) ∧
+    (uc.default = none → uc.skipOnMissing = true → ucCall uc v = .ok v) ∧
+    (uc.default = none → uc.skipOnMissing = false → ucCall uc v = .error .lenaKeyError) := by
+  have hm := missing_key_matrix_value uc p hp hu v.context
+  rw [habs] at hm
+  refine ⟨?_, ?_, ?_⟩
+  · intro dv hd; rw [hd] at hm; simp [ucCall, hm]
+  · intro hd hs; rw [hd, hs] at hm; simp [ucCall, hm]
+  · intro hd hs; rw [hd, hs] at hm; simp [ucCall, hm]
+
+/-- the key is present: the item is copied to the sub-context whatever the options -/
+theorem present_key_outcome {δ : Type} (uc : UC) (p : List String) (hp : WFPath p)
+    (hu : uc.upd = .ctxValue (joinDots p)) (v : Item δ) (w : Val) (h : getPath (.dict v.context) p = some w) :
+    ucCall uc v = .ok (.pair v.data (ucSet uc.recursively v.context uc.subctx w)) := by
+  have hm := missing_key_matrix_value uc p hp hu v.context
+  rw [h] at hm
+  simp [ucCall, hm]
+
+/-- do all fields of a template name an item of the context -/
+def fieldsPresent (ctx : Entries) : List Piece → Bool
+  | [] => true
+  | .lit _ :: r => fieldsPresent ctx r
+  | .field p :: r => (getPath (.dict ctx) p).isSome && fieldsPresent ctx r
+
+/-- the literals interleaved with `str(item)` of the fields; an absent field gives the empty string -/
+def renderSpec (ctx : Entries) : List Piece → String
+  | [] => ""
+  | .lit s :: r => s ++ renderSpec ctx r
+  | .field p :: r =>
+    (match getPath (.dict ctx) p with
+     | some (.leaf a) => pyStr a
+     | _ => "") ++ renderSpec ctx r
+
+/-- every field that is present names a scalar (the rendering of a dictionary is not modelled) -/
+def LeafFields (ctx : Entries) (ps : List Piece) : Prop :=
+  ∀ p, Piece.field p ∈ ps → ∀ v, getPath (.dict ctx) p = some v → ∃ a, v = .leaf a
+
+theorem renderPieces_spec (strict : Bool) (ctx : Entries) : ∀ (ps : List Piece), LeafFields ctx ps →
+    renderPieces strict ctx ps =
+      .ok (if strict && !fieldsPresent ctx ps then none else some (renderSpec ctx ps))
+  | [], _ => by simp [renderPieces, fieldsPresent, renderSpec]
+  | .lit s :: r, h => by
+    have ih := renderPieces_spec strict ctx r (fun p hp => h p (by simp [hp]))
+    rw [renderPieces, ih]
+    simp only [fieldsPresent, renderSpec]
+    split <;> simp_all
+  | .field p :: r, h => by
+    have ih := renderPieces_spec strict ctx r (fun p hp => h p (by simp [hp]))
+    rw [renderPieces]
+    cases hg : getPath (.dict ctx) p with
+    | none =>
+      simp only [fieldsPresent, renderSpec, hg]
+      cases strict
+      · simp [ih]
+      · simp
+    | some w =>
+      obtain ⟨a, rfl⟩ := h p (by simp) w hg
+      simp only [strOfVal, fieldsPresent, renderSpec, hg, ih]
+      split <;> simp_all
+
+/-- **missing_key_matrix (formatting string)** — for a template of literals and `{{key.path}}` fields the
+update value is the rendered string; a missing field is the empty string by default, and with
+`skip_on_missing` / `raise_on_missing` (strict templates) the value is returned unchanged /
+`LenaKeyError` is raised -/
+theorem missing_key_matrix_template (uc : UC) (ps : List Piece) (strict : Bool)
+    (hu : uc.upd = .template ps strict) (ctx : Entries) (hl : LeafFields ctx ps) :
+    ucCompute uc ctx =
+      if strict && !fieldsPresent ctx ps then
+        (if uc.raiseOnMissing then .error .lenaKeyError else .ok .skip)
+      else .ok (.update (.leaf (.str (renderSpec ctx ps)))) := by
+  unfold ucCompute
+  rw [hu]
+  simp only [renderPieces_spec strict ctx ps hl]
+  split <;> simp_all
+
+/-- a plain value or a string without braces is used as it is, whatever the context -/
+theorem simple_update_outcome (uc : UC) (ctx : Entries) :
+    (∀ v, uc.upd = .simple v → ucCompute uc ctx = .ok (.update v)) ∧
+    (∀ s, uc.upd = .plain s → ucCompute uc ctx = .ok (.update (.leaf (.str s)))) := by
+  constructor <;> intro x h <;> simp [ucCompute, h]
+
+/-! ### construction: every ill-formed combination is rejected -/
+
+/-- number of active missing-key options -/
+def nActive (a : UCArgs) : Nat := a.default.isSome.toNat + a.raiseOnMissing.toNat + a.skipOnMissing.toNat
+
+/-- does the construction consult jinja2, and does jinja2 reject the template -/
+def jinjaRejects (a : UCArgs) (u : String) : Prop :=
+  (a.raiseOnMissing = true ∨ a.skipOnMissing = true ∨ u.toList.contains '{' = true) ∧ jinjaParse u = .syntaxError
+
+/-- the documented ill-formed argument combinations of `UpdateContext` -/
+def IllFormed (a : UCArgs) : Prop :=
+  a.subcontext = none ∨ a.subcontext = some "" ∨ nActive a > 1 ∨
+  (∃ v, a.update = .simple v ∧ nActive a ≠ 0) ∨
+  (∃ u, a.update = .str u ∧ a.value = true ∧ matchValueTemplate u.toList = false) ∨
+  (∃ u, a.update = .str u ∧ a.value = false ∧ a.default.isSome = true) ∨
+  (∃ u, a.update = .str u ∧ a.value = false ∧ jinjaRejects a u)
+
+example : ¬ IllFormed (UCArgs.mk (some "output.plot") (.simple (.dict [("scatter", .leaf (.bool true))])) false none
+    false false true) := by
+  simp [IllFormed, nActive]
+example : IllFormed (UCArgs.mk (some "a") (.str "{{x}}") true (some (.leaf .none)) true false true) := by
+  simp [IllFormed, nActive]
+
+/-! ## 4. `DeleteContext` -/
+
+/-- the string and the list/tuple notation of a key name the same path; the empty string is the empty
+path -/
+theorem delete_notations (p : List String) (hp : WFPath p) :
+    dcInit (.str (joinDots p)) = p ∧ dcInit (.list p) = p := by
+  refine ⟨?_, rfl⟩
+  simp only [dcInit, strToList]
+  by_cases hne : p = []
+  · subst hne; simp [joinDots_nil]
+  · rw [if_neg (joinDots_ne_empty p hne hp)]
+    exact splitDots_joinDots p hne (fun k hk => (hp k hk).2)
+
+/-- **delete_exact** — "DeleteContext changes exactly the addressed item and leaves the data and every
+other item untouched": for a non-empty key path the result is the same data with a context in which
+the path names nothing, and every item whose path is not prefix-comparable with it is what it was; a
+value without context is returned as it is; the empty key clears the context -/
+theorem delete_exact {δ : Type} (p : List String) (x : δ) (ctx : Entries) (hw : EntriesWF ctx) (hne : p ≠ []) :
+    ∃ c', dcCall p (.pair x ctx) = .pair x c' ∧
+      getPath (.dict c') p = none ∧
+      ∀ q, ¬ p <+: q → ¬ q <+: p → getPath (.dict c') q = getPath (.dict ctx) q := by
+  refine ⟨delPath ctx p, by simp [dcCall, hne], getPath_delPath_same p ctx hne hw, ?_⟩
+  intro q h1 h2
+  exact getPath_delPath_frame p ctx q hne h1 h2
+
+theorem delete_bare_and_empty {δ : Type} (p : List String) (x : δ) (ctx : Entries) :
+    dcCall p (Item.bare x) = .bare x ∧ dcCall [] (Item.pair x ctx) = .pair x [] := by
+  simp [dcCall]
+
+theorem setKey_lookup_self : ∀ (d : Entries) (k : String) (w : Val), lookup d k = some w → setKey d k w = d
+  | [], _, _, h => by simp at h
+  | (k', w') :: r, k, w, h => by
+    rw [lookup_cons] at h
+    by_cases hk : k' = k
+    · simp [hk] at h; subst h; simp [setKey, hk]
+    · simp [hk] at h; simp [setKey, hk, setKey_lookup_self r k w h]
+
+theorem eraseKey_absent : ∀ (d : Entries) (k : String), lookup d k = none → eraseKey d k = d
+  | [], _, _ => rfl
+  | (k', w') :: r, k, h => by
+    rw [lookup_cons] at h
+    by_cases hk : k' = k
+    · simp [hk] at h
+    · simp [hk] at h; simp [eraseKey, hk, eraseKey_absent r k h]
+
+/-- "if the value contains no such key, it is ignored": deleting an absent item (also below a scalar)
+changes nothing at all -/
+theorem delete_absent_noop : ∀ (p : List String) (ctx : Entries), p ≠ [] → getPath (.dict ctx) p = none →
+    delPath ctx p = ctx
+  | [], _, h, _ => absurd rfl h
+  | [k], ctx, _, h => by
+    rw [getPath_singleton] at h
+    simp [delPath, eraseKey_absent ctx k h]
+  | k :: k' :: r, ctx, _, h => by
+    rw [delPath_cons2]
+    rw [getPath_dict_cons] at h
+    cases hl : lookup ctx k with
+    | none => rfl
+    | some w =>
+      cases w with
+      | leaf a => rfl
+      | dict e =>
+        simp only
+        rw [hl] at h
+        simp only [Option.bind_some] at h
+        rw [delete_absent_noop (k' :: r) e (by simp) h]
+        exact setKey_lookup_self ctx k _ hl
+
+example : delPath [("a", .dict [("b", .leaf (.int 7)), ("c", .leaf (.int 1))])] ["a", "b"] =
+    [("a", .dict [("c", .leaf (.int 1))])] := by decide
+example : delPath [("a", .leaf (.int 5))] ["a", "b"] = [("a", .leaf (.int 5))] := by decide
+
+/-! ## 5. `format_update_with` / `update_recursively` -/
+
+/-- a value that `format_update_with` does not format: anything but a string with a brace -/
+def NotTemplate (v : Val) : Prop := ∀ s, v = .leaf (.str s) → s.toList.contains '{' = false
+
+/-- the last two statements of `format_update_with`: `update_recursively(d, str_to_dict(key, vf))` is the
+recursive assignment of `vf` to the key path -/
+theorem fuw_tail (p : List String) (hne : p ≠ []) (hp : WFPath p) (vf : Val) (d : Entries) :
+    (match strToDict (joinDots p) (some vf) with
+     | .error e => (.error e : Except Exc Val)
+     | .ok fctx => updateRecursively (.dict d) (.val fctx) none) = .ok (.dict (ucSet true d p vf)) := by
+  obtain ⟨k0, r, rfl⟩ : ∃ k0 r, p = k0 :: r := by
+    cases p with
+    | nil => exact absurd rfl hne
+    | cons a b => exact ⟨a, b, rfl⟩
+  unfold strToDict
+  rw [if_neg (joinDots_ne_empty _ hne hp)]
+  simp only
+  rw [splitDots_joinDots _ hne (fun k hk => (hp k hk).2), nestList_eq _ _ hne]
+  simp only [updateRecursively, nestPath, Option.isSome_none, Bool.false_eq_true, if_false]
+  rw [updRec_nestPath]
+
+/-- **format_update_with (plain value)** — `format_update_with(key, value, d)` with a value that is not a
+template is the recursive assignment of `value` to the key path; hence (`getPath_ucSet_same`,
+`getPath_ucSet_frame`) afterwards the path names `value` (merged, for two dictionaries) and every item
+not prefix-comparable with the path is unchanged -/
+theorem fuw_plain (p : List String) (hne : p ≠ []) (hp : WFPath p) (v : Val) (hv : NotTemplate v) (d : Entries) :
+    formatUpdateWith (joinDots p) v (.dict d) = .ok (.dict (ucSet true d p v)) := by
+  have := fuw_tail p hne hp v d
+  unfold formatUpdateWith
+  cases v with
+  | dict o => simpa using this
+  | leaf a =>
+    cases a with
+    | str s => simp only [hv s rfl]; simpa using this
+    | none => simpa using this
+    | bool b => simpa using this
+    | int i => simpa using this
+
+/-- **format_update_with (template)** — with a template value the rendered string is assigned; when a
+field is missing (`LenaKeyError`) or the template is malformed the exception leaves and nothing is
+assigned -/
+theorem fuw_template (p : List String) (hne : p ≠ []) (hp : WFPath p) (s : String)
+    (hs : s.toList.contains '{' = true) (d : Entries) :
+    (∀ fc r, formatInit (some s) = .ok fc → formatCall fc (.dict d) = .ok r →
+      formatUpdateWith (joinDots p) (.leaf (.str s)) (.dict d) = .ok (.dict (ucSet true d p (.leaf (.str r))))) ∧
+    (∀ fc e, formatInit (some s) = .ok fc → formatCall fc (.dict d) = .error e →
+      formatUpdateWith (joinDots p) (.leaf (.str s)) (.dict d) = .error e) ∧
+    (∀ e, formatInit (some s) = .error e →
+      formatUpdateWith (joinDots p) (.leaf (.str s)) (.dict d) = .error e) := by
+  refine ⟨?_, ?_, ?_⟩
+  · intro fc r hi hr
+    have := fuw_tail p hne hp (.leaf (.str r)) d
+    unfold formatUpdateWith
+    simp only [hs, hi, hr, if_true]
+    simpa using this
+  · intro fc e hi he
+    unfold formatUpdateWith
+    simp only [hs, hi, he, if_true]
+  · intro e hi
+    unfold formatUpdateWith
+    simp only [hs, hi, if_true]
+
+/-- the empty key is rejected with `LenaValueError`, something that is not a dictionary with
+`LenaTypeError` -/
+theorem fuw_errors (v : Val) (hv : NotTemplate v) (d : Val) (p : List String) (hne : p ≠ []) (hp : WFPath p) (a : Leaf) :
+    formatUpdateWith "" v d = .error .lenaValueError ∧
+    formatUpdateWith (joinDots p) v (.leaf a) = .error .lenaTypeError := by
+  have h1 : ∀ key d, formatUpdateWith key v d =
+      match strToDict key (some v) with
+      | .error e => .error e
+      | .ok fctx => updateRecursively d (.val fctx) none := by
+    intro key d
+    unfold formatUpdateWith
+    cases v with
+    | dict o => rfl
+    | leaf a =>
+      cases a with
+      | str s => simp only [hv s rfl]; rfl
+      | none => rfl
+      | bool b => rfl
+      | int i => rfl
+  constructor
+  · rw [h1]; rfl
+  · rw [h1]
+    obtain ⟨k0, r, rfl⟩ : ∃ k0 r, p = k0 :: r := by
+      cases p with
+      | nil => exact absurd rfl hne
+      | cons a b => exact ⟨a, b, rfl⟩
+    unfold strToDict
+    rw [if_neg (joinDots_ne_empty _ hne hp)]
+    simp only
+    rw [splitDots_joinDots _ hne (fun k hk => (hp k hk).2), nestList_eq _ _ hne]
+    simp [updateRecursively, nestPath]
+
 end Lena.C08
